@@ -48,6 +48,7 @@ structure State where
   signingPeriod : Nat
   maxAttempt : Nat
   maxDE : Nat
+  badTokens : List Nat := []         -- malformed nonce pairs put in a queue through the keeper (fault injection)
   -- bandtss
   bActive : Nat → Bool
   bSince : Nat → Int
@@ -68,7 +69,7 @@ structure State where
 inductive Err
   | ok | deLimit | noSigners | maxAttempt | feeExceedsLimit | insufficientFunds
   | signingNotFound | notWaiting | notAssigned | alreadySigned | badSignature
-  | alreadyActive | penaltyNotElapsed | memberNotFound | invalidCoins
+  | alreadyActive | penaltyNotElapsed | memberNotFound | invalidCoins | createFailed
   deriving DecidableEq, Repr
 
 def geAll (s : State) (a b : Coins) : Bool := s.denoms.all fun d => decide (b d ≤ a d)
@@ -82,6 +83,18 @@ def enqueue (s : State) (m k : Nat) : State × Err :=
   if (s.queues m).length + k > s.maxDE then (s, .deLimit)
   else ({ s with queues := fun x => if x = m then s.queues m ++ (List.range k).map (· + s.nextToken) else s.queues x,
                   nextToken := s.nextToken + k }, .ok)
+
+/-- fault injection: a malformed pair enqueued through the keeper API (MsgSubmitDEs validates points) -/
+def enqueueBad (s : State) (m : Nat) : State × Err :=
+  match enqueue s m 1 with
+  | (s', .ok) => ({ s' with badTokens := s.nextToken :: s.badTokens }, .ok)
+  | (_, e) => (s, e)
+
+/-- some selected member's head pair is malformed: the nonce computation after DequeueDEs fails -/
+def headBad (s : State) (committee : List Nat) : Bool :=
+  committee.any fun m => match s.queues m with
+    | t :: _ => decide (t ∈ s.badTokens)
+    | [] => false
 
 def resetDE (s : State) (m : Nat) : State := { s with queues := fun x => if x = m then [] else s.queues x }
 
@@ -106,6 +119,7 @@ def initiate (s : State) (sid : Nat) (committee : List Nat) (height : Int) : Sta
     let att := sg.attempt + 1
     if att > s.maxAttempt then (s, .maxAttempt)
     else if s.threshold > (available s).length then (s, .noSigners)
+    else if headBad s committee then (s, .createFailed)     -- fails after the dequeue; rolled back with its context
     else
       let (as, q') := dequeueAll s.queues committee
       ({ s with queues := q',
